@@ -99,6 +99,15 @@ CLAIMS = {
         "per-element factor, range, clamped), float scalars on dyadic operands, unnormalised and normalised quaternion lerp, quaternion slerp (inherent/trait/ref/clamped; acute and obtuse pairs), "
         "Transform lerp and all Transition accessors/constructors/mappers are recorded on exact rationals with token angles and recomputed by TLC."),
   design="§6 C12, §12"),
+ "C13": dict(
+  technique="TLA+ spec of boxes as the point sets they denote (VekGeom); results recorded from the real code for all boxes / pairs of a small grid validated pointwise by TLC trace validation",
+  text=("The specification defines every operation by the point set a box denotes, evaluated over a grid fine enough to separate all boxes of the model (corners on even integers, query points on all "
+        "integers). All 256 2D boxes on {0,2,4,6}^2 and all 729 3D boxes on {0,2,4}^3, valid and invalid, are run through the real Aabr/Aabb and Rect/Rect3 code on i32 and TLC validates each "
+        "recorded result pointwise: closed-interval membership, union = least box containing both point sets, intersection = exactly the common points (invalid iff none), containment = subset, "
+        "collision of positive-extent boxes = interiors share a point (touching faces do not), expansion to a point, splits covering the box and sharing exactly the slice, centre/size/half size, "
+        "projection = nearest grid point of the box, validity repair, map/as_, the box<->rectangle conversions, every rectangle method against the box method on the converted value, and the "
+        "collision vector making the boxes touch per axis. Thorough enumerates all 65536 ordered pairs of 2D boxes (8 TLC shards); quick a seeded sample."),
+  design="§6 C13, §12"),
  "C14": dict(
   technique=TRACE_TECH,
   text=("TLC checks on the specification, for random control points and parameters over Z_46337 (extrapolation included), that the Bernstein form equals de Casteljau and the power-basis form given by "
@@ -125,6 +134,14 @@ CLAIMS = {
         "and the inverted_rgb involution are checked on values for all 18 ColorComponent types; TLC checks on the specification that embedding a smaller matrix and vector commutes with "
         "multiplication."),
   design="§6 C19, §12"),
+ "C16": dict(
+  technique="TLA+ spec of disks/spheres (squared-distance comparison), segments (parametric minimiser) and rays (Cramer's rule) with independent closed-form oracles; results recorded from the real code validated by TLC trace validation over integers and exact rationals",
+  text=("Disks and spheres are run through f64/f32 on integer centres, radii and boundary-biased points (exactly on the circle through Pythagorean offsets), where float decisions are exact, and "
+        "TLC checks containment and collision against the squared-distance comparison incl. exact tangency, the bounding rectangle/box, diameter and the measures against pi. On exact rationals "
+        "TLC checks segment projection against the clamped parametric minimiser and against 17 sampled points of the segment, distances as witnessed square roots, ray/triangle queries against "
+        "Cramer's rule (Some(d) exactly when the line crosses the closed triangle non-parallelly, with that d) on rays aimed at interior points, edges, vertices, parallel and coplanar "
+        "directions, and that moving the other disk/sphere by the collision vector leaves the two exactly tangent on the same side."),
+  design="§6 C16, §12"),
  "C17": dict(
   technique="TLA+ spec (VekOps/VekOpsAlgo) model-checked by TLC exhaustively per bit width; TLC-emitted result tables replayed into the real code (spec->code conformance)",
   text=("TLC checks exhaustively (every (x,lo,hi) of 5-bit types in quick, 8-bit in thorough) that the declarative operators satisfy the range laws of the "
